@@ -1342,6 +1342,11 @@ class SeqV(Val):
   def to_list(self, ctx):
     return ctx.alloc(ListCell(self.seq, self.codec))
 
+  def key_set(self, ctx):
+    # set(iterable) of a symbolic sequence: the iteration order of the result is the hash order of its
+    # elements, which for str / bytes elements depends on the per-process hash seed (PYTHONHASHSEED)
+    return SeqV(ctx.fresh('hash_order_of_set', self.seq.sort()), self.codec)
+
   def truth(self, ctx):
     return z3.Length(self.seq) != 0
 
